@@ -40,7 +40,8 @@ def do_op(r, op, flags, kept=None):
         return ['MSG', L.canon_result(x, flags)]
     if k == 'ft':
         ts = [L.mtype(t) for t in op[1]]
-        r.filter_in_place(ts[0] if len(ts) == 1 else set(ts))
+        form = op[2] if len(op) > 2 else None
+        r.filter_in_place((ts[0] if len(ts) == 1 else set(ts)) if form is None else L.types_arg(op[1], form))
     elif k == 'fs':
         # op[4]: False / True (both floats / both Timestamps) or a two-letter string of 'f' / 't' per end
         reps = op[4] if len(op) > 4 and isinstance(op[4], str) else ('tt' if (len(op) > 4 and op[4]) else 'ff')
